@@ -164,8 +164,12 @@ def run_apalache(module, steps, timeout=1500, tag="ap"):
     return res
 
 
+MAX_CHUNK_LINES = 2500   # TLC's time per trace line grows with the length of the trace it holds: keep chunks short
+
+
 def split_trace(path, nchunks):
-    """Splits an ndjson trace at reset events into <= nchunks files of similar size."""
+    """Splits an ndjson trace at reset events into files of similar size: at least `nchunks` of them (when there are
+    that many runs) and as many more as needed to keep each below MAX_CHUNK_LINES lines."""
     runs, cur = [], []
     with open(path) as f:
         for line in f:
@@ -175,8 +179,9 @@ def split_trace(path, nchunks):
             cur.append(line)
     if cur:
         runs.append(cur)
-    nchunks = max(1, min(nchunks, len(runs)))
     total = sum(len(r) for r in runs)
+    nchunks = max(nchunks, -(-total // MAX_CHUNK_LINES))
+    nchunks = max(1, min(nchunks, len(runs)))
     target = total / nchunks
     files, acc, n = [], [], 0
     for r in runs:
